@@ -85,6 +85,19 @@ def guards_failure(rng):
                 return '%s(radius=2.5, search=%r%s) accepted' % (kind, s0, ', radius_outer=4.0' if 'Background' in kind else '')
             except ValueError:
                 pass
+    # the same guards with a user-supplied radial map (odd, even and non-square maps in pixel units): supplying the map changes nothing about
+    # which radii / search sizes are consistent
+    for (my, mx) in ((16, 16), (17, 17), (16, 21)):
+        rmap = masks.polar_map(centerX=mx // 2, centerY=my // 2, imageSizeX=mx, imageSizeY=my)[0]
+        for radius, ro, search in ((5.0, 7.0, 6.8), (5.0, 7.0, 7.0), (5.0, 4.0, 8.0), (5.0, 5.0, 8.0), (3.0, 6.0, 5.9), (3.0, 6.0, 6.5), (5.0, None, 7.0), (5.0, None, 8.0)):
+            ok = (ro is None or ro > radius) and (search >= (ro if ro is not None else 1.5 * radius))
+            try:
+                pat.RadialGradientBackgroundSubtraction(radius=radius, radius_outer=ro, search=search, radial_map=rmap)
+                acc = True
+            except ValueError:
+                acc = False
+            if acc != ok:
+                return 'RadialGradientBackgroundSubtraction(radius=%s, radius_outer=%s, search=%s, radial_map=<%dx%d map>) %s' % (radius, ro, search, my, mx, 'accepted' if acc else 'rejected')
     for _ in range(60):
         radius = float(rng.choice([1.5, 2.0, 3.25, 5.0]))
         ro = float(radius + rng.choice([-1.0, 0.0, 0.5, 2.0]))
@@ -159,8 +172,13 @@ def requery_failure(desc, shapes, order):
             pm[0][...] = pm[0] * 0.4 + 1.0
         pattern.get_mask(s)
     for s in order:
-        if not np.array_equal(pattern.get_mask(s), ref[s], equal_nan=True) or not np.array_equal(pattern.get_template(s), np.fft.rfft2(ref[s]), equal_nan=True):
+        m1 = pattern.get_mask(s)
+        if not np.array_equal(m1, ref[s], equal_nan=True) or not np.array_equal(pattern.get_template(s), np.fft.rfft2(ref[s]), equal_nan=True):
             return 'pattern re-queried for shape %s gives a different mask/template than a fresh object' % (s,)
+        # the returned mask is the caller's: normalising it in place must not reach the pattern (the library hands out fresh arrays)
+        m1 = np.asarray(m1)
+        if m1.flags.writeable:
+            m1[...] = m1 * 0.25 - 1.0
     return None
 
 
@@ -361,10 +379,14 @@ def run(ctx):
             break
     # re-query order
     for k in range(ctx.n(10, 60)):
-        pattern, desc = cl.rand_pattern(rng, cmax=6)
+        pattern, desc = cl.rand_pattern(rng, cmax=6, kinds=[cl.PATTERN_KINDS[k % len(cl.PATTERN_KINDS)]])      # every class in turn
         shapes = [(int(rng.integers(2, 40)), int(rng.integers(2, 40))) for _ in range(3)]
         # neighbours that share the shape of their real FFT (same height, widths 2k and 2k+1) and transposes
         shapes += [(shapes[0][0], shapes[0][1] ^ 1), (shapes[1][0], shapes[1][1] ^ 1), (shapes[0][1], shapes[0][0])]
+        if desc['kind'] == 'UserTemplate':
+            # shapes that need no padding on either axis (the template's own shape and smaller ones): get_mask then only crops
+            ty, tx = np.array(desc['template']).shape
+            shapes += [(ty, tx), (max(1, ty - 1), max(1, tx - 2)), (ty, max(1, tx - 1))]
         shapes = [sh for sh in shapes if min(sh) >= 1]
         order = [shapes[i] for i in rng.permutation(len(shapes))] + shapes[::-1] + shapes
         fail = requery_failure(desc, shapes, order)
